@@ -56,7 +56,7 @@ structure DenseInv (E : RodasEnv ℚ) (s : RodasState ℚ) : Prop where
   idx : 1 ≤ s.inext ∧ s.inext ≤ E.tspan.length
   next : s.inext < E.tspan.length → s.tnext = E.tspan.getD s.inext 0 ∧ s.t < s.tnext
   all : s.inext = E.tspan.length → s.t = E.tend
-  finished : s.done = true → s.failed = true ∨ (0 ≤ E.tend - s.t ∧ E.tend - s.t < E.uround)
+  finished : s.done = true → s.failed = true ∨ s.t = E.tend
 
 namespace DenseHyp
 variable {E : RodasEnv ℚ} (H : DenseHyp E)
@@ -223,11 +223,11 @@ theorem accepted_fields (err fac0 : ℚ) (s : RodasState ℚ)
     (E.attempt err fac0 s).t = (afterOutput E s).t ∧ (E.attempt err fac0 s).T = (afterOutput E s).T ∧
     (E.attempt err fac0 s).inext = (afterOutput E s).inext ∧ (E.attempt err fac0 s).tnext = (afterOutput E s).tnext ∧
     (E.attempt err fac0 s).stop = (afterOutput E s).stop ∧ (E.attempt err fac0 s).failed = (afterOutput E s).failed ∧
-    (E.attempt err fac0 s).done = (decide (|E.tend - (afterOutput E s).t| < E.uround) || (afterOutput E s).stop) := by
+    (E.attempt err fac0 s).done = (decide (E.tend ≤ (afterOutput E s).t) || (afterOutput E s).stop) := by
   have e2 : E.stepDt { s with attempts := s.attempts + 1 } = E.stepDt s := rfl
   simp only [attempt, h1, h2, H.hf, ha, Bool.false_eq_true, if_false, if_true, accept, doEvents, H.events_empty, output, H.hd,
     finish, e2, afterOutput]
-  simp only [H.lt_iff, H.abs_eq, H.sub_eq, Bool.not_true, Bool.and_false, Bool.false_or]
+  simp only [H.lt_iff, H.le_iff, H.abs_eq, H.sub_eq, Bool.not_true, Bool.and_false, Bool.false_or, Bool.false_and, Bool.or_false]
   refine ⟨?_, ?_, ?_, ?_, ?_, ?_, ?_⟩ <;> first | trivial | rfl
 
 theorem rejected_fields (err fac0 : ℚ) (s : RodasState ℚ)
@@ -298,7 +298,7 @@ theorem attempt_inv (err fac0 : ℚ) (s : RodasState ℚ) (I : DenseInv E s) (hr
       rw [ft, p6']
       simp only [Bool.or_false, decide_eq_false_iff_not] at hdone
       by_cases hl : E.isLast s = true
-      · exfalso; apply hdone; rw [hgt.2.2.2 hl]; simpa using H.hu
+      · exfalso; apply hdone; rw [hgt.2.2.2 hl]
       · exact hgt.2.2.1 (by simpa using hl)
     · intro hk
       rw [fi] at hk
@@ -313,9 +313,7 @@ theorem attempt_inv (err fac0 : ℚ) (s : RodasState ℚ) (I : DenseInv E s) (hr
       rw [ft, p6']
       simp only [Bool.or_false, decide_eq_true_eq] at hdone
       right
-      have hnn : 0 ≤ E.tend - tNew E s := by linarith [hgt.2.1]
-      rw [abs_of_nonneg hnn] at hdone
-      exact ⟨hnn, hdone⟩
+      exact le_antisymm hgt.2.1 hdone
   · have ha' : E.O.le err E.O.one = false := by simpa using ha
     obtain ⟨ft, fT, fi, fn, fstop, ffail, fdone⟩ := H.rejected_fields err fac0 s h1' h2 ha'
     refine ⟨by rw [ft]; exact I.le_tend, fun _ => by rw [ft]; exact I.running hr, hcl.1, hcl.2, by rw [fstop]; exact I.nostop,
